@@ -550,12 +550,11 @@ func runC19Case(dir string, cs c19Case, prot map[string][]byte, a1 *arch1) (trac
 		}
 		_ = mfiles
 		index = filepath.Join(dir, "set.par2")
-	} else if cs.Muts[0].Field == "set.256_entries" || cs.Muts[0].Field == "set.255_entries" {
-		// a genuine set with 255 / 256 entries (3 real files + tiny ones), written by the reference writer
+	} else if strings.HasPrefix(cs.Muts[0].Field, "set.") && strings.HasSuffix(cs.Muts[0].Field, "_entries") {
+		// a genuine set with 255 / 256 entries (3 real files + tiny ones), written by the reference writer;
+		// 257 and 300 entries: more files than PAR 1.0 can protect (must be refused, not crash)
 		n := 255
-		if cs.Muts[0].Field == "set.256_entries" {
-			n = 256
-		}
+		fmt.Sscanf(cs.Muts[0].Field, "set.%d_entries", &n)
 		var specs []refpar1.FileSpec
 		for _, nm := range c19Names {
 			specs = append(specs, refpar1.FileSpec{Name: nm, Data: prot[nm], Saved: true})
